@@ -1,4 +1,5 @@
 import AFModel.DictForm
+import AFModel.Gate
 
 /-!
 # DictJson — the dictionary / JSON form the library actually writes, and its reader (C08)
@@ -393,5 +394,42 @@ def pnPriorsList {V} : List (PN V) → List (Nat × PDesc V)
   | [] => []
   | n :: rest => pnPriors n ++ pnPriorsList rest
 end
+
+/-! ## assertions: what a stored expression denotes, and where assertions are attached -/
+
+/-- the assertion a stored expression denotes (`GreaterThanLessThanAssertion` is `lower < greater`,
+`GreaterThanLessThanEqualAssertion` is `lower <= greater`, a `CompoundAssertion` is the conjunction) -/
+def asrtOf {V} (sig : String → List String) : PN V → Asrt V
+  | .arith ct _ _ l r =>
+      if ct == "GreaterThanLessThanAssertion" then .cmp true (erase sig l) (erase sig r)
+      else if ct == "GreaterThanLessThanEqualAssertion" then .cmp false (erase sig l) (erase sig r)
+      else .lit false
+  | .both x y => .and (asrtOf sig x) (asrtOf sig y)
+  | _ => .lit false
+
+mutual
+/-- every assertion attached anywhere: a component's own assertions, then those of its attributes in
+attribute order (the order in which `instance_for_arguments` meets them) -/
+def pnAsserts {V} : PN V → List (PN V)
+  | .model _ attrs asserts => asserts ++ pnAssertsAttrs attrs
+  | .coll _ attrs asserts => asserts ++ pnAssertsAttrs attrs
+  | _ => []
+def pnAssertsAttrs {V} : List (String × PN V) → List (PN V)
+  | [] => []
+  | (_, n) :: rest => pnAsserts n ++ pnAssertsAttrs rest
+end
+
+/-- the verdict of every assertion of the composition under a valuation of the parameters -/
+def assertVerdicts {V} [Inhabited V] (ops : Ops V) (sig : String → List String) (ρ : Nat → Inst V) (t : PN V) :
+    List Bool :=
+  (pnAsserts t).map (fun a => evalA ops ρ (asrtOf sig a))
+
+/-! ## pickle / dill
+
+ASSUMPTION (stated, not derived): `pickle` rebuilds the same attribute tree and restores every object's
+`__dict__` verbatim - in particular each prior's integer `id` (`__getstate__` only drops caches). In the
+model the identity of a prior *is* its id, so a pickle round trip is the renaming by the identity map. -/
+
+def pickleRT {V} (t : PN V) : PN V := renamePN (fun i => i) t
 
 end AF
